@@ -6,6 +6,7 @@ mod frag;
 mod nullser;
 mod prog;
 mod res;
+mod script;
 mod shm;
 mod util;
 mod vanish;
@@ -25,6 +26,7 @@ fn main() {
         "codec" => codec::run(),
         "prog" => prog::run(),
         "res" => res::run(),
+        "script" => script::run(),
         "vanish" => vanish::run(),
         "crash" => crash::run(),
         "shm" => shm::run(),
